@@ -6,6 +6,7 @@ mod p_exec;
 mod p_cli;
 mod p_escape;
 mod p_run;
+mod p_expect;
 
 use std::io::{BufWriter, Write};
 
@@ -25,6 +26,7 @@ fn main() {
         "escape" => p_escape::main(&args[1..], &mut w),
         "run" => p_run::main(&args[1..], &mut w),
         "crlf-child" => p_run::crlf_child(&args[1..]),
+        "expect" => p_expect::main(&args[1..], &mut w),
         "consts" => p_consts::main(&args[1..], &mut w),
         x => { eprintln!("unknown subcommand {}", x); std::process::exit(2); }
     }
